@@ -27,6 +27,12 @@ CHECK = {
            'objs=struct|string|int instances VALUE objects (a user struct whose Cmp ignores a payload field, heap Strings, heap Ints) '
            'caught through DISTINCT filter objects that are eq() to them: every handler entry records the identity of the bound object '
            '(pointer equality with the thrown object, payload/value intact), so a handler bound to the filter object is a violation. '
+           'Deep nesting (mode=deep): recursion with D try blocks open at once, D in {1,2,3,17,100,1000,MAX-2,MAX-1,MAX} with MAX = '
+           'EXCEPTION_MAX_DEPTH taken from the library source (MAX+1 aborts by design and is not run), non-matching filters at every level '
+           'except a target (outermost/middle/innermost/nobody; typed or catch-all), A or B thrown at the bottom, optionally re-thrown by the '
+           'target handler to level 0 or to nobody; each case in a forked child; judged: exactly the target handler(s) run and bind the thrown '
+           'object, len(current(Exception)) before/inside/in the handler/after every level, exit status and diagnostic, and an ordinary '
+           'program run afterwards. '
            'states = distinct programs; transitions = judged runs (programs + chained pairs + '
            'fresh-thread runs + forked runs); traces_validated = executions of a program body on the real macros; '
            'distinct_nontrivial = distinct programs in which at least one catch clause met a pending exception raised in its own try '
@@ -37,17 +43,17 @@ CHECK = {
               'pre/post fixed (3.8M), chaining over the {nop,A,B} space; depth 3: {nop,A,B} in 8 slots x 64 filter triples x 4 shapes x 4 '
               'realisations (6.7M); sibling sequences 1.07M; siblings inside a try 4.2M; ASan+UBSan: depth 1 full (with chaining and forks on a '
               'shard), depth 2 and 3 and sequences on smaller alphabets; value-object mode (struct/String/Int thrown, distinct equal filters): '
-              'depth 1 full x3 kinds with chaining, 2916 forked, depth 2 1.05M (struct) + 200k (String), sequences 200k, ASan depth 1 + depth 2'),
+              'depth 1 full x3 kinds with chaining, 2916 forked, depth 2 1.05M (struct) + 200k (String), sequences 200k, ASan depth 1 + depth 2; deep nesting: 270 cases up to 2048 open try blocks x {types, struct values, ASan}'),
     'thorough': ('depth 1 as quick; depth 2: 9-statement alphabet, pre/post in {nop,A,B} (34M), chaining over {nop,A,B,K0} with pre/post (1.05M x residual '
                  'states), 262k depth-2 programs without sentinel in forked children; depth 3: {nop,A,B,K0,K1} in 8 slots x 64 filter triples x 4 shapes x 4 '
                  'realisations (400M), {nop,A,B} with pre/post (60M); sequences 8.5M; siblings inside a try 25M; ASan+UBSan instances of each family; '
                  'value-object mode: depth 1 full x3 kinds (chaining, fresh threads, forks), depth 2 34M (struct) + 3.8M (String) + 3.8M (Int) + chaining, '
-                 'depth 3 67M, sequences 8.5M, siblings inside a try 4.2M, ASan depth 1 + depth 2'),
+                 'depth 3 67M, sequences 8.5M, siblings inside a try 4.2M, ASan depth 1 + depth 2; deep nesting as quick'),
   },
   'assumptions': [
     'exception kinds are either singleton type objects (CelloEmpty, eq = type name) or value objects of ONE type per instance (user struct / String / Int); '
     'a thrown object and the filters it meets always have the same type, so eq is defined (a value thrown against a Type filter makes eq itself raise inside exception_catch - not explored, see proposed/C07-mixed-kind-filter.md)',
-    'nesting depth <= 5 (far below EXCEPTION_MAX_DEPTH = 2048); one thread at a time',
+    'enumerated programs nest <= 5 deep; the deep-nesting family reaches exactly EXCEPTION_MAX_DEPTH open blocks (more is out of contract: the library aborts by design); catch filters never list the same object twice (Tuple iteration cannot handle that: known finding D16 of C11); one thread at a time',
     'locals of the templates are not modified inside a try body and read afterwards (setjmp rules); traces live in a shared global buffer',
     'the pending object of the record (white-box field, exception_object() is declared but not defined) is used only to classify residual states, never in a verdict',
     'gcc/clang, glibc setjmp/longjmp and the sanitizer run-times are trusted',
@@ -72,6 +78,10 @@ CHECK = {
          X('seq-val', 'base', 'objs=struct', 'kind=seq', 'alpha=01246', 'ppalpha=01'),
          X('d1-val-asan', 'asan', 'objs=struct', 'depth=1', 'alpha=' + ALL, 'ppalpha=' + ALL, 'chain=1'),
          X('d2-val-asan', 'asan', 'objs=string', 'depth=2', 'alpha=0124', 'ppalpha=0')]
+      # deep dynamic nesting (recursion) up to EXCEPTION_MAX_DEPTH open try blocks, one forked child per case
+      + [X('deep', 'base', 'mode=deep'),
+         X('deep-val', 'base', 'mode=deep', 'objs=struct'),
+         X('deep-asan', 'asan', 'mode=deep')]
       + [X('d1-asan', 'asan', 'depth=1', 'alpha=' + ALL, 'ppalpha=' + ALL, 'chain=1'),
          X('d1-fork-asan', 'asan', 'depth=1', 'alpha=' + ALL, 'ppalpha=012', 'main=0', 'fork=1', 'shard=0/2'),
          X('d2-asan', 'asan', 'depth=2', 'alpha=0124', 'ppalpha=0'),
@@ -104,6 +114,10 @@ CHECK = {
       + [X('d1-val-asan', 'asan', 'objs=struct', 'depth=1', 'alpha=' + ALL, 'ppalpha=' + ALL, 'chain=1', 'fresh=1'),
          X('d1-val-fork-asan', 'asan', 'objs=struct', 'depth=1', 'alpha=' + ALL, 'ppalpha=012', 'main=0', 'fork=1', 'shard=0/2')]
       + S('d2-val-asan', 'asan', 2, 'objs=string', 'depth=2', 'alpha=' + ALL, 'ppalpha=0')
+      # deep dynamic nesting (recursion) up to EXCEPTION_MAX_DEPTH open try blocks, one forked child per case
+      + [X('deep', 'base', 'mode=deep'),
+         X('deep-val', 'base', 'mode=deep', 'objs=struct'),
+         X('deep-asan', 'asan', 'mode=deep')]
       + [X('d1-asan', 'asan', 'depth=1', 'alpha=' + ALL, 'ppalpha=' + ALL, 'chain=1', 'fresh=1')]
       + S('d1-fork-asan', 'asan', 4, 'depth=1', 'alpha=' + ALL, 'ppalpha=012', 'main=0', 'fork=1')
       + S('d2-asan', 'asan', 2, 'depth=2', 'alpha=' + ALL, 'ppalpha=0')
